@@ -436,7 +436,13 @@ func (e *Engine) selectField(c *evalCtx, base Val, name string) Val {
 				return c.st.loadAt(pi.field(name, stT.Field(i).Type()), stT.Field(i).Type())
 			}
 		}
-		// embedded?
+		if path := embeddedPath(p.Elem(), name); len(path) > 1 {
+			v := base
+			for _, f := range path {
+				v = e.selectField(c, v, f)
+			}
+			return v
+		}
 		panic(fmt.Errorf("no field %s in %s", name, typeName(p.Elem())))
 	}
 	if stT, ok := T.Underlying().(*types.Struct); ok {
@@ -444,6 +450,13 @@ func (e *Engine) selectField(c *evalCtx, base Val, name string) Val {
 			if stT.Field(i).Name() == name {
 				return base.field(i)
 			}
+		}
+		if path := embeddedPath(T, name); len(path) > 1 {
+			v := base
+			for _, f := range path {
+				v = e.selectField(c, v, f)
+			}
+			return v
 		}
 		panic(fmt.Errorf("no field %s in %s", name, typeName(T)))
 	}
@@ -542,6 +555,22 @@ func (e *Engine) evalAddr(c *evalCtx, x Expr) (*PtrInfo, types.Type) {
 			return e.evalAddr(c, n.X)
 		}
 	case *ESel:
+		if !strings.HasPrefix(n.Name, "$") {
+			// promoted field of an embedded struct: rewrite x.f to x.E1...Ek.f
+			if bv, err := e.tryEval(c, n.X); err == nil {
+				BT := bv.T
+				if p, ok := BT.Underlying().(*types.Pointer); ok {
+					BT = p.Elem()
+				}
+				if path := embeddedPath(BT, n.Name); len(path) > 1 {
+					var x Expr = n.X
+					for _, f := range path {
+						x = &ESel{X: x, Name: f}
+					}
+					return e.evalAddr(c, x)
+				}
+			}
+		}
 		if strings.HasPrefix(n.Name, "$") {
 			base := e.eval(c, n.X)
 			T := e.resolveType(ghostTypes[n.Name], c.pkg)
@@ -1115,4 +1144,32 @@ func (e *Engine) evalTokPred(c *evalCtx, name string, args []Expr) Val {
 		return boolVal(And(Eq(t.kind, BVConst(tkExt, 8)), Eq(t.aux, ZExt(v.iTag(), 64)), Eq(t.cid, v.iPl())))
 	}
 	panic(fmt.Errorf("unknown token predicate %s", name))
+}
+
+// embeddedPath: the chain of field names leading to a (possibly promoted) field of struct type T;
+// length 1 for a direct field, nil if there is none.
+func embeddedPath(T types.Type, name string) []string {
+	st, ok := T.Underlying().(*types.Struct)
+	if !ok {
+		return nil
+	}
+	for i := 0; i < st.NumFields(); i++ {
+		if st.Field(i).Name() == name {
+			return []string{name}
+		}
+	}
+	for i := 0; i < st.NumFields(); i++ {
+		f := st.Field(i)
+		if !f.Embedded() {
+			continue
+		}
+		FT := f.Type()
+		if p, ok := FT.Underlying().(*types.Pointer); ok {
+			FT = p.Elem()
+		}
+		if sub := embeddedPath(FT, name); sub != nil {
+			return append([]string{f.Name()}, sub...)
+		}
+	}
+	return nil
 }
